@@ -10,6 +10,11 @@
   * `poly_methods_consistent`      lsq_poly / lagrange / krogh: the contract holds unconditionally (for all data).
   * `lsq_minimises`, `lsq_exact`   the normal-equation solution is the least-squares polynomial, and it IS the generating
                                    polynomial when ln ω is a polynomial of degree ≤ order on ≥ order+1 distinct volumes.
+  * `elimination_total`, `lsq_total`, `lsq_exact_kernel`, `lsq_poly_law_exact`
+                                   the Gaussian elimination of the model (first non-zero pivot) answers on every non-singular
+                                   system and its answer solves it; the normal equations of ≥ order+1 distinct volumes are
+                                   non-singular, so `lstsqPolyfit` ALWAYS answers there (any data) and returns the generating
+                                   polynomial on polynomial data — no assumption on the solver is left.
   * `interp_poly_is_the_interpolant`, `interp_poly_exact`   lagrange/krogh kernel = THE interpolating polynomial.
   * `power_law_exact_*`            power-law data are reproduced exactly at every V > 0 (whole extrapolated grid).
   * `modes_not_mixed`, `gamma_acoustic_zero`                index discipline of the double loop.
@@ -19,12 +24,12 @@
   * `mode_glue_is_source`          the triple pattern `(exp s, −s', −s'')` and the node preparation (thin / flip) of the model are the ones
                                    the translator extracts from `mode_gamma.py` on this run (Generated/ModeGammaSpec.lean).
 
-  PARTIAL (see the comments at the theorems): FITPACK / pchip / akima internals are a parameter (contract measured by the harness);
-  `lstsqPolyfit` returns `some a` only after checking the normal equations — that the elimination always finds the solution
-  of a non-singular system is checked at run time (every correspondence case), not proved.
+  PARTIAL (see the comments at the theorems): FITPACK / pchip / akima internals are a parameter (contract measured by the harness).
+  Rank-deficient least squares (fewer than order+1 distinct volumes; numpy: minimum-norm solution) is outside the model.
 -/
 import CijProofs.Lemmas.Interp
 import CijProofs.Lemmas.ModeGammaSource
+import CijProofs.Lemmas.SolveTotal
 import Mathlib.Analysis.SpecialFunctions.Log.Deriv
 import Mathlib.Analysis.SpecialFunctions.Pow.Real
 import Mathlib.Analysis.Calculus.Deriv.Polynomial
@@ -82,16 +87,11 @@ example : polyder ([3, 0, 2, 5] : List ℚ) = [9, 0, 2] ∧ polyderN 2 ([3, 0, 2
 section Lsq
 variable {K : Type} [Field K] [LinearOrder K] [IsStrictOrderedRing K]
 
+omit [LinearOrder K] [IsStrictOrderedRing K] in
 /-- a row of `numpy.vander(xs, n)` dotted with the coefficient vector is Horner's value: `(V a)_r = polyval(a, x_r)`,
 so `residuals` is `V a − y` -/
-theorem vander_row_dot (x : K) (a : List K) : dot (powersDesc x a.length) a = polyval a x := by
-  rw [polyval_eq_eval]
-  induction a with
-  | nil => simp [powersDesc, dot, sumL, toPoly]
-  | cons c cs ih =>
-    simp only [dot, sumL, powersDesc, List.length_cons, List.zipWith_cons_cons, List.foldr_cons, Cij.Interp.npow_eq_pow] at ih ⊢
-    rw [ih]
-    simp [toPoly]; ring
+theorem vander_row_dot (x : K) (a : List K) : dot (powersDesc x a.length) a = polyval a x :=
+  dot_powersDesc x a
 
 omit [IsStrictOrderedRing K] in
 /-- what the solver returns satisfies the normal equations (it is checked before it is returned) -/
@@ -163,29 +163,55 @@ theorem lsq_exact (xs : List K) (order : ℕ) (c : List K) (hc : c.length = orde
     have hD0 : D = 0 := eq_zero_of_natDegree_lt_card_of_eval_eq_zero' D xs.toFinset hroot (lt_of_lt_of_le hdeg hdist)
     exact toPoly_injective a c (hla.trans hc.symm) (sub_eq_zero.mp hD0)
 
-/- FULL statement (not proved): under the hypotheses of `lsq_exact`,
-     lstsqPolyfit xs (xs.map (polyval c)) order = some c.
-   Proved part (`…_partial`): whenever `lstsqPolyfit` answers, the answer is `c`.  Missing: totality of the Gaussian elimination
-   `solve` on non-singular systems (it is an untrusted search whose answer is re-checked by `normalEq`; that it answers is observed
-   on every correspondence case — a `none` would surface there as `LinAlgError` against numpy's result). -/
-/-- consequence for the executable solver and the kernel: whenever `lstsqPolyfit` answers, the answer is `c`, hence values,
-first and second derivative are those of `c` at EVERY evaluation point (the whole extrapolated grid). -/
-theorem lsq_exact_kernel_partial (xs pts : List K) (order : ℕ) (c a : List K) (hc : c.length = order + 1)
-    (hdist : order + 1 ≤ xs.toFinset.card) (h : lstsqPolyfit xs (xs.map (polyval c)) order = some a) :
-    a = c ∧ lsqInterpolant order xs (xs.map (polyval c)) pts
-      = .ok (pts.map fun x => (polyval c x, polyval (polyder c) x, polyval (polyderN 2 c) x)) := by
-  have hac := (lsq_exact xs order c hc hdist).2 a (lsq_sound _ _ _ _ h)
-  refine ⟨hac, ?_⟩
+omit [LinearOrder K] [IsStrictOrderedRing K] in
+/-- **elimination_total.**  The model's Gaussian elimination `solve` (pivot = first row with a non-zero leading entry) on an
+`n × (n+1)` augmented system `[A | b]` over a field: if `A y = 0` has only the zero solution, `solve` ANSWERS, and its answer
+`x` has `n` entries and satisfies `A x = b` row by row.  (Converse direction `solve_none_kernel`: no answer ⇒ a non-zero kernel
+vector exists; `solve_sound`: every answer solves the system.) -/
+theorem elimination_total [DecidableEq K] (n : ℕ) (rows : List (List K)) (hlen : rows.length = n)
+    (hw : ∀ r ∈ rows, r.length = n + 1)
+    (hker : ∀ y : List K, y.length = n → (∀ r ∈ rows, dot r (y ++ [0]) = 0) → y = List.replicate n 0) :
+    ∃ x, solve n rows = some x ∧ x.length = n ∧ ∀ r ∈ rows, dot (r.take n) x = r.getD n 0 :=
+  solve_total n rows hlen hw hker
+
+/-- **lsq_total.**  For ANY data `ys` on abscissae `xs` with at least `order + 1` distinct values, `lstsq_polyfit` answers: the
+normal matrix `VᵀV` is non-singular (`Σ_r p(x_r)² = 0` forces `p = 0`: root counting), so the elimination finds the solution
+and the certificate `normalEq` passes.  With `lsq_minimises` the answer is THE least-squares polynomial. -/
+theorem lsq_total (xs ys : List K) (order : ℕ) (hl : xs.length = ys.length) (hdist : order + 1 ≤ xs.toFinset.card) :
+    ∃ a, lstsqPolyfit xs ys order = some a ∧ normalEq xs ys order a = true :=
+  lstsqPolyfit_total xs ys order hl hdist
+
+/-- **lsq_exact_kernel.**  If `ln ω` is a polynomial `c` of degree ≤ order on ≥ order + 1 distinct abscissae, the executable
+solver returns `c` itself, hence the kernel returns value, first and second derivative of `c` at EVERY evaluation point (the
+whole extrapolated grid).  Unconditional: the solver's totality is `lsq_total`. -/
+theorem lsq_exact_kernel (xs pts : List K) (order : ℕ) (c : List K) (hc : c.length = order + 1)
+    (hdist : order + 1 ≤ xs.toFinset.card) :
+    lstsqPolyfit xs (xs.map (polyval c)) order = some c ∧
+      lsqInterpolant order xs (xs.map (polyval c)) pts
+        = .ok (pts.map fun x => (polyval c x, polyval (polyder c) x, polyval (polyderN 2 c) x)) := by
+  obtain ⟨a, ha, hne⟩ := lsq_total xs (xs.map (polyval c)) order (by simp) hdist
+  have hac := (lsq_exact xs order c hc hdist).2 a hne
+  subst hac
+  refine ⟨ha, ?_⟩
   unfold lsqInterpolant
-  rw [h, hac]
+  rw [ha]
 
 end Lsq
 
 example : lstsqPolyfit ([0, 1, 2, 3] : List ℚ) [1, 3, 7, 13] 2 = some [1, 1, 1] := by decide +kernel
 example : ([0, 1, 2, 3] : List ℚ).map (polyval [1, 1, 1]) = [1, 3, 7, 13] ∧ 2 + 1 ≤ ([0, 1, 2, 3] : List ℚ).toFinset.card := by
   decide +kernel
-/-- a genuinely over-determined fit with non-zero residual -/
+/-- a genuinely over-determined fit with non-zero residual (an instance of `lsq_total`: 4 data, 4 ≥ 1 + 1 distinct abscissae) -/
 example : lstsqPolyfit ([0, 1, 2, 3] : List ℚ) [0, 1, 0, 1] 1 = some [1 / 5, 1 / 5] := by decide +kernel
+example : ([0, 1, 2, 3] : List ℚ).length = ([0, 1, 0, 1] : List ℚ).length ∧ 1 + 1 ≤ ([0, 1, 2, 3] : List ℚ).toFinset.card := by
+  decide +kernel
+/-- `elimination_total`: a non-singular system whose first pivot candidate is zero (the row search matters); and a singular
+one, on which the elimination does not answer -/
+example : solve 2 ([[0, 1, 3], [2, 1, 5]] : List (List ℚ)) = some [1, 3] ∧
+    solve 2 ([[1, 2, 3], [2, 4, 5]] : List (List ℚ)) = none := by decide +kernel
+/-- the hypothesis `order + 1 ≤ #distinct` of `lsq_total` is needed: with 2 distinct abscissae a parabola is not determined,
+the normal matrix is singular and the model does not answer -/
+example : lstsqPolyfit ([1, 2, 1, 2] : List ℚ) [1, 2, 3, 4] 2 = none := by decide +kernel
 
 /-! #### lagrange / krogh: THE interpolating polynomial -/
 
@@ -303,23 +329,38 @@ theorem power_law_exact_interp_poly (nodeVols vArray : List ℝ) (w0 V0 g : ℝ)
 
 /-- `lsq_poly`: if ln ω is a polynomial `c` of degree ≤ order in ln V (a power law: leading coefficients 0) on ≥ order+1 distinct
 positive volumes, the returned triple is `(exp c(ln V), −c'(ln V), −c''(ln V))` at EVERY grid volume — the exact ω, γ and V∂γ/∂V of the
-generating law, inside and outside the sampled range.  `…_partial`: assumes that the elimination answers (`hsolve`, see
-`lsq_exact_kernel_partial`). -/
-theorem lsq_poly_law_exact_partial (vols vArray : List ℝ) (order : ℕ) (c : List ℝ) (hc : c.length = order + 1)
-    (hpos : ∀ V ∈ vols, 0 < V) (hdist : order + 1 ≤ vols.toFinset.card)
-    (hsolve : ∃ a, lstsqPolyfit (vols.map Real.log) ((vols.map Real.log).map (polyval c)) order = some a) :
+generating law, inside and outside the sampled range.  No assumption on the solver (`lsq_total`). -/
+theorem lsq_poly_law_exact (vols vArray : List ℝ) (order : ℕ) (c : List ℝ) (hc : c.length = order + 1)
+    (hpos : ∀ V ∈ vols, 0 < V) (hdist : order + 1 ≤ vols.toFinset.card) :
     interpolateMode .lsqPoly order (kernelOf .lsqPoly order (fun _ _ _ => .error .valueError)) vols
         (vols.map fun V => Real.exp (polyval c (Real.log V))) vArray
       = .ok (vArray.map fun v => (Real.exp (polyval c (Real.log v)), -polyval (polyder c) (Real.log v),
           -polyval (polyderN 2 c) (Real.log v))) := by
-  obtain ⟨a, ha⟩ := hsolve
-  have hk := (lsq_exact_kernel_partial (vols.map Real.log) (vArray.map Real.log) order c a hc
-    (by rw [log_nodes_card vols hpos]; exact hdist) ha).2
+  have hk := (lsq_exact_kernel (vols.map Real.log) (vArray.map Real.log) order c hc
+    (by rw [log_nodes_card vols hpos]; exact hdist)).2
   have hys : (vols.map fun V => Real.exp (polyval c (Real.log V))).map Real.log = (vols.map Real.log).map (polyval c) := by
     simp [List.map_map, Function.comp_def]
   have := finishMode_eq (lsqInterpolant order) vols (vols.map fun V => Real.exp (polyval c (Real.log V))) vArray (polyval c)
     (polyval (polyder c)) (polyval (polyderN 2 c)) (by rw [hys]; exact hk)
   simpa [interpolateMode, modeNodes, kernelOf, bind, Except.bind] using this
+
+/-- `lsq_poly` on ≥ 2 distinct positive volumes (any order ≥ 1) reproduces a power law `ω = ω₀ (V/V₀)^(−γ)` exactly on the whole
+grid: `(ω, γ, V∂γ/∂V) = (ω₀ (V/V₀)^(−γ), γ, 0)` -/
+theorem power_law_exact_lsq (nodeVols vArray : List ℝ) (w0 V0 g : ℝ) (hw : 0 < w0) (hV0 : 0 < V0)
+    (hnodes : ∀ V ∈ nodeVols, 0 < V) (hgrid : ∀ V ∈ vArray, 0 < V) (h2 : 2 ≤ nodeVols.toFinset.card) :
+    finishMode (lsqInterpolant 1) nodeVols (nodeVols.map fun V => w0 * (V / V0) ^ (-g)) vArray
+      = .ok (vArray.map fun V => (w0 * (V / V0) ^ (-g), g, 0)) := by
+  refine power_law_exact _ nodeVols vArray w0 V0 g hw hV0 hnodes hgrid fun c hc => ?_
+  exact (lsq_exact_kernel (nodeVols.map Real.log) (vArray.map Real.log) 1 c hc
+    (by rw [log_nodes_card nodeVols hnodes]; exact h2)).2
+
+/-- the hypotheses of `lsq_poly_law_exact` / `power_law_exact_lsq` are satisfiable: three distinct positive volumes, order 1
+or 2, a power law (leading coefficient 0 for order 2) -/
+example : (∀ V ∈ ([3, 2, 1] : List ℝ), 0 < V) ∧ 2 + 1 ≤ ([3, 2, 1] : List ℝ).toFinset.card ∧
+    ([0, -3 / 2, 5] : List ℝ).length = 2 + 1 := by
+  refine ⟨by norm_num, ?_, rfl⟩
+  rw [List.toFinset_card_of_nodup (by norm_num)]
+  rfl
 
 /-- `lagrange` / `krogh`: if ln ω is a polynomial `c` of degree < number of thinned nodes (power law: degree 1, needs 2 nodes) on
 distinct positive volumes, the returned triple is exact at EVERY grid volume.  No further assumption. -/
